@@ -95,5 +95,12 @@ ClassifyOK(hist, t, now) ==
         /\ st = GOOD => RecentlyActive(r, now)                 \* good only if it answered / queried within 15 min
         /\ r.hs => st = QUEST                                  \* hearsay-only contacts are questionable
         /\ ~(r.run >= 2 /\ ~RecentlyActive(r, now))            \* two unanswered queries while not good: dropped
+\* a reported contact is not dropped by the mere passage of time, a query sent to it or a query received from it
+\* unless it has left two queries unanswered while not good ("fail to respond to multiple queries in a row")
+NoSpuriousDropT(hist2, t, before, t2, now) ==
+    \A p \in RLiveSlots(t, before) :
+        LET h == Handle(SlotC(t, p)) IN
+        HGet(hist2, h).run < 2 => h \in RLiveHandles(t2, now)
+NoSpuriousDrop(hist2, t, t2, now) == NoSpuriousDropT(hist2, t, now, t2, now)
 AnswerGood(t2, h, now) == h \in RLiveHandles(t2, now) => StatusOfHandle(t2, h, now) = GOOD
 =============================================================================
